@@ -380,7 +380,11 @@ func (g *gen) stepUpdate() {
 		in["remove_blobber_id"] = g.blobberOf(a).key.ID
 		variant += "-removeonly"
 	}
-	g.do(from, "update_allocation_request", in, value, opInfo{variant: variant + "-" + who, target: a.id})
+	tb := ""
+	if id, ok := in["remove_blobber_id"].(string); ok {
+		tb = id
+	}
+	g.do(from, "update_allocation_request", in, value, opInfo{variant: variant + "-" + who, target: a.id, tblob: tb})
 }
 
 func (g *gen) stepFinalize() {
@@ -707,7 +711,7 @@ func (g *gen) replace(a *allocInfo, rm *prov) {
 	nb := out[g.r.Intn(len(out))]
 	g.do(nb.key, "blobber_health_check", map[string]interface{}{}, 0, opInfo{variant: "one"})
 	in := map[string]interface{}{"id": a.id, "add_blobber_id": nb.key.ID, "remove_blobber_id": rm.key.ID}
-	g.do(g.ownerOf(a), "update_allocation_request", in, g.pickU(0, 500000, 3000000), opInfo{variant: "replace-killed-owner", target: a.id})
+	g.do(g.ownerOf(a), "update_allocation_request", in, g.pickU(0, 500000, 3000000), opInfo{variant: "replace-killed-owner", target: a.id, tblob: rm.key.ID})
 }
 
 var _ = zcommon.Timestamp(0)
